@@ -702,7 +702,8 @@ class PortNamespace(collections.abc.MutableMapping, Port):
                 port_value = port_values[name]
 
             if isinstance(port, PortNamespace):
-                port_values[name] = port.pre_process(port_value)
+                # complete a copy: ``port_value`` may be the declared default of the namespace, which must not change
+                port_values[name] = port.pre_process(dict(port_value))
             else:
                 port_values[name] = port_value
 
